@@ -313,6 +313,8 @@ def build_ledger(ctx, path, own_ex):
                 if out == "ok":
                     L.add(i, side, pclass(e.args[2]), "produce", m, e)
                     L.add(i, side, pclass(e.args[1]), "consume", m, e)
+                elif out is None and path.exit[0] == "retry" and not [q for q in path.events[i + 1:] if q.kind == "call"]:
+                    pass    # the attempt's outcome is tested by the loop header of the next iteration
                 elif out is None and path.exit[0] != "diverge":
                     raise AnalysisError("OWN: link CAS outcome untested in %s" % b.name)
             elif op == "store":
